@@ -32,6 +32,24 @@ CHECKS = {
         note="Trusts the 100-line scanner in vlib/model_lines_c.py (validated against gcc -E line structure on continuation-free texts each run); enumerated '#' lines are limited to null directives.",
         ref="2 C05",
     ),
+    "C06": dict(
+        technique="property-based testing: Hypothesis code bases; cross-front-end agreement and invariants against the in-process per-line attribution",
+        text="Generated-input search over multi-file, multi-directory code bases (C/C++/CUDA/Fortran/asm, unused files, file symlinks, 0-4 platforms through real compilation databases). From the in-process per-line attribution the check derives what get_setmap, the summary table (rows, percentages, total), every cbi-tree row (files, directory sums, root, --prune, -L) and the cbi-cov export (content hash, used/unused partition, platform analysed alone) must be; the in-process report functions are checked on every case and the three real CLIs on a subset. Bounded exploration.",
+        note="The reference is the tool's own per-line attribution (its correctness is C01/C04/C05); printed numbers are compared at printed precision; code bases with no counted line are discarded.",
+        ref="2 C06",
+    ),
+    "C08": dict(
+        technique="property-based testing: Hypothesis code bases with generated command histories; metamorphic relations (union of fresh single-command analyses, projection, permutation)",
+        text="Generated-input search over code bases with macro-carrying shared headers and 1-4 platforms x 1-4 commands: the full analysis must equal the union of fresh single-command analyses, any platform subset must give the projection (also through codebasin -p / cbi-tree -p), and permuting commands/platforms must not change any line's platform set. Bounded exploration of histories (command sequences up to 16).",
+        note="Relations over the implementation itself; the harness resets the process-wide compiler cache before each analysis.",
+        ref="2 C08",
+    ),
+    "C10": dict(
+        technique="property-based testing: Hypothesis code bases x generated exclude-pattern lists; metamorphic relations with/without exclusion, relocation of out-of-root headers, -x vs analysis file",
+        text="Generated-input search over code bases whose excluded or out-of-root headers define macros that survivors test. Surviving files must keep their per-line attribution, the setmap difference must be exactly the removed files' lines, moving ../ext headers inside the root must change nothing else, and -x on codebasin / cbi-tree / cbi-cov must equal the analysis-file exclude / the in-process result. Bounded exploration.",
+        note="Which files a pattern removes is taken from CodeBase membership (C09 checks its git semantics).",
+        ref="2 C10",
+    ),
     "C07": dict(
         technique="property-based testing: exhaustive table enumeration + Hypothesis tables vs exact-rational reference model and metamorphic relations",
         text="Generated-input search: every table over 3 platforms with counts from a small set (complete enumeration) and Hypothesis tables over <=8 platforms are compared with exact rational formulas, plus symmetry/renaming/order/scaling relations and the printed metric lines. Finds formula deviations on any explored table; says nothing beyond the explored sizes.",
